@@ -46,7 +46,8 @@ def refusal_before_mutation(ctx, prog, func, rule, label):
     cfg = func.cfg()
     refusals = [n for n in func.nodes() if n["k"] == "return" and astq.const_value(n.get("e")) == 0]
     if not refusals:
-        raise AnalysisBroken("%s: %s has no refusal (constant 'return false')" % (rule, label))
+        ctx.fail(rule, "%s:has-refusal" % label, func.loc(), "%s has no refusal path (constant `return false`): a rewind that cannot be performed is no longer refused" % label)
+        return
     writes = nonlocal_writes(prog, func)
     reach = cfg.reachable_blocks()
     for r in refusals:
